@@ -1,36 +1,37 @@
 #!/bin/bash
-# A private copy of /verif and of /repo's HEAD under /tmp/lab, so that long experiments
+# A private copy of /verif and of /repo's HEAD under $LAB, so that long experiments
 # (seeded regression, benign changes) do not block work on /verif and /repo themselves.
 #   tools/lab.sh create     copy /verif (committed or not) and check out /repo's HEAD
 #   tools/lab.sh remove
-# Inside the lab: REPO=/tmp/lab/repo /tmp/lab/verif/tools/<script>
+# Inside the lab: REPO=$LAB/repo $LAB/verif/tools/<script>
 set -u
+LAB="${LAB:-/tmp/lab}"
 case "${1:-}" in
 create)
-    [ -e /tmp/lab ] && { echo "/tmp/lab exists"; exit 2; }
-    mkdir -p /tmp/lab
-    git -C /repo worktree add --detach /tmp/lab/repo HEAD -q || exit 2
-    rsync -a --exclude .git --exclude replay --exclude evidence /verif/ /tmp/lab/verif/
-    mkdir -p /tmp/lab/verif/evidence /tmp/lab/verif/replay
-    cd /tmp/lab/verif || exit 2
-    sed -i 's#"/repo/#"/tmp/lab/repo/#' shadow/*/Cargo.toml sim/src/main.rs
-    sed -i 's#git_rev("/repo")#git_rev("/tmp/lab/repo")#' sim/src/runner.rs
+    [ -e $LAB ] && { echo "$LAB exists"; exit 2; }
+    mkdir -p $LAB
+    git -C /repo worktree add --detach $LAB/repo HEAD -q || exit 2
+    rsync -a --exclude .git --exclude replay --exclude evidence /verif/ $LAB/verif/
+    mkdir -p $LAB/verif/evidence $LAB/verif/replay
+    cd $LAB/verif || exit 2
+    sed -i "s#\"/repo/#\"$LAB/repo/#" shadow/*/Cargo.toml sim/src/main.rs
+    sed -i "s#git_rev(\"/repo\")#git_rev(\"$LAB/repo\")#" sim/src/runner.rs
     ./check setup
     ;;
 refresh)
     # bring the lab up to date with /verif's working tree and /repo's HEAD
-    [ -d /tmp/lab/verif ] || { echo "no lab"; exit 2; }
-    git -C /tmp/lab/repo checkout -q --detach "$(git -C /repo rev-parse HEAD)" || exit 2
-    git -C /tmp/lab/repo checkout -q -- . && git -C /tmp/lab/repo clean -fdq
-    rsync -a --delete --exclude .git --exclude replay --exclude evidence --exclude target /verif/ /tmp/lab/verif/
-    cd /tmp/lab/verif || exit 2
-    sed -i 's#"/repo/#"/tmp/lab/repo/#' shadow/*/Cargo.toml sim/src/main.rs
-    sed -i 's#git_rev("/repo")#git_rev("/tmp/lab/repo")#' sim/src/runner.rs
+    [ -d $LAB/verif ] || { echo "no lab"; exit 2; }
+    git -C $LAB/repo checkout -q --detach "$(git -C /repo rev-parse HEAD)" || exit 2
+    git -C $LAB/repo checkout -q -- . && git -C $LAB/repo clean -fdq
+    rsync -a --delete --exclude .git --exclude replay --exclude evidence --exclude target /verif/ $LAB/verif/
+    cd $LAB/verif || exit 2
+    sed -i "s#\"/repo/#\"$LAB/repo/#" shadow/*/Cargo.toml sim/src/main.rs
+    sed -i "s#git_rev(\"/repo\")#git_rev(\"$LAB/repo\")#" sim/src/runner.rs
     ./check setup
     ;;
 remove)
-    git -C /repo worktree remove --force /tmp/lab/repo
-    rm -rf /tmp/lab
+    git -C /repo worktree remove --force $LAB/repo
+    rm -rf $LAB
     git -C /repo worktree prune
     ;;
 *) echo "usage: tools/lab.sh create|refresh|remove"; exit 2 ;;
